@@ -78,9 +78,15 @@ public:
 	
 	ScopedRemover & operator = (ScopedRemover && other) noexcept
 	{
-		dispatcher = std::move(other.dispatcher);
-		itemList = std::move(other.itemList);
-		other.reset();
+		if(this != &other) {
+			// Remove the listeners this remover is still responsible for,
+			// otherwise they are forgotten and stay in the dispatcher forever.
+			reset();
+
+			dispatcher = std::move(other.dispatcher);
+			itemList = std::move(other.itemList);
+			other.reset();
+		}
 		return *this;
 	}
 	
@@ -219,9 +225,15 @@ public:
 
 	ScopedRemover & operator = (ScopedRemover && other) noexcept
 	{
-		callbackList = std::move(other.callbackList);
-		itemList = std::move(other.itemList);
-		other.reset();
+		if(this != &other) {
+			// Remove the listeners this remover is still responsible for,
+			// otherwise they are forgotten and stay in the callback list forever.
+			reset();
+
+			callbackList = std::move(other.callbackList);
+			itemList = std::move(other.itemList);
+			other.reset();
+		}
 		return *this;
 	}
 
